@@ -1035,6 +1035,9 @@ def family_cases(thorough: bool = False) -> list[tuple]:
         for link in range(ncook):
             for linker in ("ADV", "O1"):
                 cases.append(("hidden-extended", ncook, link, linker))
+    for how in ("dup-destroy", "sweep"):
+        for gap in (1.0, 2.5, 4.0):
+            cases.append(("double-removal", gap, how))
     for shape in range(len(REUSE_SHAPES)):
         for hold in ("create", "created"):
             # (seconds between destroy and re-use, seconds the old owner's extend was delayed): with a prompt extend
@@ -1049,7 +1052,7 @@ def run_family_case(seed: int, case: tuple) -> tuple[list[tuple], str, bytes, in
     """One execution from scratch. Returns ([(key, what)], status, abstract digest, injections)."""
     fn = {"halfbuilt": _run_halfbuilt, "closing": _run_closing, "simfirst": _run_simfirst, "nested": _run_nested,
           "reuse": _run_reuse, "hidden": _run_hidden, "forged-created": _run_forged_created,
-          "hidden-extended": _run_hidden_extended}[case[0]]
+          "hidden-extended": _run_hidden_extended, "double-removal": _run_double_removal}[case[0]]
     return fn(seed, *case[1:])
 
 
@@ -1541,6 +1544,59 @@ def _run_hidden_extended(seed: int, ncook: int, link: int, linker: str) -> tuple
         if not viol:
             viol += [(k, f"{what}: {where}") for k, what in _traffic(world, label)]
         return viol, status, world.digest(), world.injections
+    finally:
+        world.close()
+
+
+def _run_double_removal(seed: int, gap: float, how: str) -> tuple[list[tuple], str, bytes, int]:
+    """
+    X = O1 -1-> X1, older than a minute, default remove_tunnel_delay (5 s).  X1 is asked twice, `gap` seconds apart, to
+    remove it (how = "dup-destroy": the network delivers O1's signed destroy twice; "sweep": X1's own removal is
+    requested twice, as its 5 s inactivity sweep does while the first removal sleeps).  When the first removal has
+    happened the id is free: Z = O2 -1-> X1 takes it.  The second removal then fires: Z's entry may only go by a destroy
+    signed by Z's neighbour.
+    """
+    plans = [("O1", ("X1",), (1,)), ("O2", ("X1",), (1,))]
+    world = World5(2, seed, custom=plans, defer=(1,), remove_delay=5.0, no_traffic=True)
+    try:
+        w = world.w
+        x = world.plans[0]
+        w.run_for(61.0)
+        if not world.holds("X1", 1):
+            raise HarnessError("double-removal: the old circuit did not survive its first minute")
+        world.live[0] = False
+        label = f"DR/{how}"
+        if how == "dup-destroy":
+            n0 = len(w.wire_log)
+            w.nodes["O1"].run(w.ov["O1"].remove_circuit, 1, "c05", destroy=1)
+            w.flush()
+            sent = [dg for dg in w.wire_log[n0:] if world._name(dg.dst) == "X1"]
+            if not sent:
+                raise HarnessError("double-removal: no destroy on the wire")
+            w.run_for(gap)
+            w.inject(sent[-1].src, sent[-1].dst, sent[-1].data, "duplicate")
+            w.flush()
+        else:
+            w.nodes["O1"].run(w.ov["O1"].remove_circuit, 1, "c05", remove_now=True)     # O1 just forgets it
+            w.nodes["X1"].run(w.ov["X1"].remove_exit_socket, 1, "no activity")
+            w.run_for(gap)
+            w.nodes["X1"].run(w.ov["X1"].remove_exit_socket, 1, "no activity")
+        world.injections += 2
+        w.run_for(5.0 - gap + 0.25)                     # the first removal has happened, the second has not
+        if world.holds("X1", 1):
+            raise HarnessError("double-removal: the first removal did not happen")
+        world._take_snapshot()
+        built = world.build_late(1)
+        if built is None:
+            return [], "reuse-refused", world.digest(), world.injections
+        viol = _labelled(built, label)
+        w.run_for(gap + 1.0)                            # the second removal of the OLD circuit fires
+        where = (f"X1 was asked twice ({how}, {gap:.1f} s apart) to remove O1's old circuit 1; after the first removal "
+                 f"O2 took id 1; then the second removal fired")
+        viol += _labelled([(o, f"{d}: {where}") for o, d in world.check()], label)
+        if not viol:
+            viol += [(k, f"{what}: {where}") for k, what in _traffic(world, label)]
+        return viol, "ran", world.digest(), world.injections
     finally:
         world.close()
 
